@@ -130,11 +130,22 @@ def run_combine(ctx, n):
     rng = random.Random(ctx.seed * 97 + 10)
     jobs, meta, scen = [], [], []
     flags = ['--structured', '-o', 'json', '-S', 'none']
-    for k in range(n):
+    import itertools
+    simple = {'P': 'rule p%d { a exists }\nrule q%d { a == 1 }\n', 'S': 'rule s%d when zz exists { a exists }\n',
+              'F': 'rule f%d { a == 999 <<must be 999>> }\nrule g%d { a exists }\n', 'M': 'rule m%d when zz exists { a exists }\nrule n%d { a exists }\n'}
+    combos = [c for k in (1, 2, 3) for c in itertools.product('PSFM', repeat=k)]
+    for k in range(n + len(combos)):
         nr = rng.choice([2, 2, 3])
         doc = gen.gen_doc(rng)
         rules = []
-        for i in range(nr):
+        if k < len(combos):
+            # every combination of per-file statuses (PASS / SKIP / FAIL / mixed), in every order
+            doc = {"a": 1}
+            for i, c in enumerate(combos[k]):
+                t = simple[c]
+                rules.append(t % tuple([i] * t.count('%d')))
+            nr = len(rules)
+        for i in range(nr if k >= len(combos) else 0):
             prog = gen.ProgGen(rng, doc, {'cycles': 0.0, 'functions': False, 'types': False}).gen_file()
             for r in prog['rules']:
                 r['name'] = 'f%d_%s' % (i, r['name'])      # distinct rule names across files
